@@ -31,7 +31,7 @@ Lemma gen_date_validates_agree : model_date_validates_calendar = SwitchGen.date_
 Proof. vm_compute. reflexivity. Qed.
 Lemma gen_depth_guard_agree : model_decode_value_depth_guard = SwitchGen.decode_value_depth_guard /\ max_nesting_depth = SwitchGen.max_nesting_depth.
 Proof. vm_compute. split; reflexivity. Qed.
-Lemma gen_decimal_exponent_agree : max_decimal_exponent = SwitchGen.max_decimal_exponent /\ SwitchGen.decimal_exponent_guard = true.
+Lemma gen_decimal_exponent_agree : max_decimal_exponent = SwitchGen.max_decimal_exponent /\ model_decimal_exponent_guard = SwitchGen.decimal_exponent_guard.
 Proof. vm_compute. split; reflexivity. Qed.
 Lemma gen_oneof_conflict_agree : model_create_field_checks_oneof = SwitchGen.create_field_checks_oneof.
 Proof. vm_compute. reflexivity. Qed.
@@ -46,6 +46,14 @@ Definition site_eqb (a b : string * string * string) : bool :=
 Lemma gen_panic_sites_reviewed :
   forallb (fun s => existsb (fun r => site_eqb s (fst r)) reviewed_panic_sites) SwitchGen.panic_sites = true.
 Proof. vm_compute. reflexivity. Qed.
+
+(* the outer switch of scalarReflectFromGo has an arm for every kind the model converts, and no arm
+   the model does not know (\"Any\": a scalar schema of type any is never built by the reflector) *)
+Lemma gen_scalar_kinds_agree :
+  forallb (fun k => existsb (String.eqb (kind_group k)) SwitchGen.scalar_kinds) all_scalar_kinds = true /\
+  forallb (fun s => String.eqb s "Any" || String.eqb s "default" ||
+                    existsb (fun k => String.eqb (kind_group k) s) all_scalar_kinds) SwitchGen.scalar_kinds = true.
+Proof. vm_compute. split; reflexivity. Qed.
 
 Lemma gen_set_value_clears_agree : model_set_value_clears_invalid = SwitchGen.set_value_clears_invalid.
 Proof. vm_compute. reflexivity. Qed.
